@@ -1255,7 +1255,12 @@ pub fn history(mode: &str, idx: u64, rng: &mut Rng, thorough: bool, timeout_ms: 
             };
             let mn = area_tok(rng, &[0.01, 0.1, 0.5], 300);
             let mx = area_tok(rng, &[0.5, 1.0, 4.0, 10.0], 500);
-            let budget = if rng.chance(600) { rng.pick(&[0u64, 1, 2, 3, 5, 10, 50, 400]).to_string() } else { s("-") };
+            let mut budget = if rng.chance(600) { rng.pick(&[0u64, 1, 2, 3, 5, 10, 50, 400]).to_string() } else { s("-") };
+            // "unlimited" budgets (usize::MAX and just below): only where refinement stops by itself
+            // after a few vertices (angle limit 0, no area limit: only encroachment is resolved)
+            if angle == format!("d{:016x}", 0f64.to_bits()) && mx == "-" && rng.chance(500) {
+                budget = rng.pick(&[u64::MAX, u64::MAX - 2]).to_string();
+            }
             let keep = if rng.chance(if region { 600 } else { 300 }) { "1" } else { "0" };
             let excl = if rng.chance(if region { 800 } else { 500 }) { "1" } else { "0" };
             ctx.op(vec![s("refine"), angle, mn, mx, budget, s(keep), s(excl)]);
